@@ -249,6 +249,23 @@ CLAIMS = {
          "thorough tier all of them.",
     technique="TLA+ ISA/flag table checked and enumerated by TLC; TLC trace validation of tokenised listings per flag "
               "subset; reference-semantics validation of runs under the subsets"),
+ "C07": dict(
+    text="Program descriptions (the eight C01 templates with seeded opcodes, x2/x4, constants, int and 64-bit "
+         "parameters, accumulators, 1-D/2-D, plus float / double / long parameter marshalling programs, a constant-n "
+         "program and a 2-D accumulator) are rendered to .orc text; tools/orcc built from the current tree generates "
+         "implementation and header in five modes (lazy init, --init-function, --inline, --compat, --no-backup); gcc "
+         "compiles them against the library and, with -DDISABLE_ORC, without it; a generated driver calls every "
+         "function through its C prototype (array pointers, strides, parameters of each C type, n, m, accumulator "
+         "out-pointers) under JIT, ORC_CODE=backup, ORC_CODE=emulate and Orc-free; harness/orcc_rt.c records inputs and "
+         "outputs as Prog events and TLC validates every element against the program semantics (OrcProg via "
+         "Trace_Prog).  orc_memcpy / orc_memset are validated the same way as the programs copyb d1,s1 / copyb d1,p1 "
+         "for lengths 0..300 and alignment pairs.",
+    design_ref="DESIGN.md section 6 C07",
+    note="A failing orcc run or gcc compile of generated code is itself a violation.  Float opcodes inside generated code "
+         "are C18's/C04's; float and double parameters are marshalled into bitwise opcodes here.  --test mode output is "
+         "not executed.",
+    technique="TLA+ program semantics (OrcProg) evaluated by TLC on traces recorded by a driver calling orcc-generated "
+              "code through its C prototypes in every build and run-time mode"),
  "C01": dict(
     text="Native code is judged against the reference semantics directly (so native = emulation follows and a shared "
          "error would still be caught).  (1) One-opcode programs for every integer opcode compiled for avx, sse and "
